@@ -30,6 +30,10 @@ transfer algebra.  What this harness does on every run:
   (e.g. the negative cosine of a knife edge) keeps the suffix-free signature, which is not known.
 * The total volume is also taken with femio's own polyhedron kernel (`calculate_element_volumes(mode='linear')`) on the
   input and on every output without vertex merge and compared with the exact fan volume (relative 1e-9).
+* Round 5: the FIELD is a generator dimension of every transfer (dtype incl. integer counts / unsigned / bool / float16 / float32,
+  Fortran / strided / read-only layout, rank 1), the source field is compared with a snapshot afterwards, and every result goes
+  back through the opposite function ("... and back"); stream 'chain-collapse' (dist_thresh = 1.25 .. 3 x the local edge length:
+  chains of nodes collapse while part of the mesh survives); a listed node without finite coordinates is reported.
 * Every compress() is first tried in a forked child under a memory and a time cap (`dry_run`): a kernel that no longer
   ends is reported as `compress:runaway` with its input instead of taking the whole check down.
 """
@@ -47,7 +51,7 @@ from . import common as C
 from . import meshgen as MG
 
 PROP = 'C20'
-LEAN_MODULES = ['Femio.Props.C20', 'Femio.Props.C20Pipeline', 'Femio.Props.C20Admit']
+LEAN_MODULES = ['Femio.Props.C20', 'Femio.Props.C20Pipeline', 'Femio.Props.C20Admit', 'Femio.Props.C20Round5']
 THEOREMS = []          # filled from the audit list below
 PARTIAL = [
     'the CHOICE of clusters / edges / vertex pairs made by the heuristics of compress() (randomised face hashing, float '
@@ -86,7 +90,15 @@ RULE = ('meshes: tet (6 Kuhn tets per cell) and hex bricks of 1..3 cells per axi
         'boundary edges; dist_thresh = 0; the evidence counts the cases whose threshold lies between c and |c| of a knife edge '
         '(sign-sensitive) and within 1e-3 of a body cosine; thin-layer: hex / tet bricks with one or two layers of thickness 1/4 or '
         '1/8 along one axis, dist_thresh in {3/8, 1/2, 3/4}, elem_num mostly >= the cell count, knn in {2,3,5}: vertices merged and '
-        'neighbour lists with a duplicate representative are counted; all 8 transfers, every third case as a knn history A,B,A')
+        'neighbour lists with a duplicate representative are counted; all 8 transfers, every third case as a knn history A,B,A; '
+        'chain-collapse: dist_thresh = 1.25 .. 3 x the local edge length h - graded bricks with a run of 3..5 fine layers (h = 1/4, 1/8) '
+        'next to unit layers, anisotropic bricks with spacings h, 3h/2 and 1.1 .. 2 x dist_thresh (3..4 x 2..4 x 2..3 cells), bricks with '
+        'one uniformly fine axis; elem_num mostly >= the cell count; the evidence counts the largest set of input nodes merged into one; '
+        'all 8 transfers on each; FIELD of every transfer (all streams): dtype from {float64 x5, int64 x3, int32, float32, float16, uint8, '
+        'int8, bool, one of int16/uint16/uint32/uint64}, layout from {C x3, Fortran, strided view, read-only}, rank 1 (shape (N,)) in 1 of 16; '
+        'values exactly representable in the dtype (mean: one constant per column, narrow integers up to +-120 / 250 / 30000 / 60000; sum: '
+        'integer counts in -20..20 / 0..40, bool 0/1), drawn from a seed stored in the case; after every transfer the source field is compared '
+        'with a snapshot and the result is sent back through the opposite function (round trip: constant / total of the original field)')
 ASSUMPTIONS = [
     'node indices are < 2^32 (the code packs a directed edge into one int64)',
     'face hashes (random base modulo 2^61-1) do not collide',
@@ -96,7 +108,14 @@ ASSUMPTIONS = [
     'a face merge counts as admitted by cos_thresh when the exact cosine of the fan normals of the two faces (as they were when the '
     'round of remove_edges took its decisions) is >= cos_thresh - 1e-10; the allowance covers the rounding of the code\'s float unit '
     'normals and their dot product; thresholds derived from a cosine of the body are placed >= 1e-6 away from it',
-    'float results of the transfer functions are compared with the exact rational model values at relative tolerance 1e-9',
+    'float results of the transfer functions are compared with the exact rational model values at relative tolerance 1e-9 (of the sum '
+    'of the absolute input values); for a float32 / float16 source field at 8 machine epsilons of that dtype (a transfer may keep the '
+    'dtype of the field): every generated value is exactly representable in the dtype of the field',
+    'a field is handed to update_data under a fresh name: femio then stores the very array (same dtype, same memory; counted in the '
+    'evidence as field:stored-as-handed-in), so dtype and layout reach the transfer functions',
+    'a mean deviation is attributed to the open finding mean-narrow-dtype only when every entry equals the row sum wrapped modulo 2^bits '
+    '(bool: logical or) divided by the row count (wrapped_mean; Lean transferMeanWrap / transferMeanOr); any other deviation keeps the '
+    'plain signature',
     'a compress() of a generated brick (<= 162 cells) that needs more than 2 GiB of additional address space or more than '
     '150 s in the dry run is reported as compress:runaway (on the tree as delivered: < 1 s, a few MiB)',
 ]
@@ -108,6 +127,8 @@ THEOREMS = ['C20_checker_sound', 'C20_check_polyhedron_spec', 'C20_checker_set_n
 THEOREMS = THEOREMS + list(_steps.THEOREMS)      # Props/C20Pipeline.lean
 THEOREMS = THEOREMS + ['C20_admit_iff_cos', 'C20_unsigned_test_counterexample', 'C20_fan_normal_rotate', 'C20_fan_normal_rotate_k',
                        'C20_upstream_normal_counterexample', 'C20_upstream_admits_knife_edge']      # Props/C20Admit.lean
+THEOREMS = THEOREMS + ['C20_sum_truncation_counterexample', 'C20_mean_wrap_eq', 'C20_mean_narrow_accumulation_counterexample',
+                       'C20_merge_via_table_eq', 'C20_table_valid_after_merge', 'C20_stale_table_counterexample']      # Props/C20Round5.lean
 
 
 def quiet(f, *a, **k):
@@ -293,6 +314,60 @@ def shallow_case(rnd, i):
     m = reorder_nodes(rnd, m, rnd.choice(['asc', 'asc', 'shuf', 'desc']))
     m['shallow'] = f'{shape}:slope=2^-{eps.denominator.bit_length() - 1}' + (':valley' if eps < 0 else '')
     params = {'elem_num': rnd.choice([1, 1, 2, 3]), 'cos_thresh': [1.0, 1 - 1e-9][(i // 8 + i) % 2], 'dist_thresh': 0.0, 'knn': 1}
+    return m, params
+
+
+
+def chain_case(rnd, i):
+    """stream 'chain-collapse': dist_thresh clearly above the local edge length (t = 1.25 .. 3 x the spacing h), so that a
+    vertex that has absorbed its neighbour is still within reach of the next one and whole chains of nodes collapse within few
+    sweeps of merge_vertices - while part of the mesh survives:
+    'fine-run'    graded brick, along one axis a run of 3..5 fine layers (h = 1/4, 1/8) between / next to unit layers, the other
+                  axes unit or double spacing, dist_thresh = t x h < 1;
+    'anisotropic' the bricks of a typical parameter study: spacings h, 3h/2 and s3 = 1.1 .. 2 x dist_thresh, 3..4 x 2..4 x 2..3
+                  cells, dist_thresh = t x h reaches across one or both fine axes;
+    'uniform-axis' every layer of one axis fine (3..6 layers), the other axes >= 4 h.
+    elem_num mostly keeps the cells small, so that the short edges survive the cell merge."""
+    kind = 'hex' if i % 2 == 0 else 'tet'
+    style = ['fine-run', 'anisotropic', 'fine-run', 'anisotropic', 'fine-run', 'uniform-axis'][i // 2 % 6]
+    ax = rnd.randrange(3)
+    o1, o2 = [a for a in range(3) if a != ax]
+    t = F(rnd.choice([5, 6, 8, 10, 12]), 4)
+    grids = [None, None, None]
+    if style == 'fine-run':
+        h = F(1, rnd.choice([4, 8]))
+        run = rnd.randint(3, 5) if kind == 'hex' else 3
+        lay = {0: [F(1)] + [h] * run, 1: [h] * run + [F(1)], 2: [F(1)] + [h] * run + [F(1)]}[rnd.randrange(3)]
+        grids[ax] = lay
+        for o in (o1, o2):
+            grids[o] = [F(rnd.choice([1, 2]))] * rnd.randint(1, 2)
+        if kind == 'tet':
+            grids[o2] = grids[o2][:1]
+    elif style == 'anisotropic':
+        h = F(1, rnd.choice([2, 4]))
+        t = F(rnd.choice([6, 7, 8, 10]), 4)
+        grids[ax] = [h] * (rnd.randint(3, 4) if kind == 'hex' else 3)
+        grids[o1] = [h * F(3, 2)] * (rnd.randint(2, 4) if kind == 'hex' else 2)
+        grids[o2] = [t * h * F(rnd.choice([11, 15, 20]), 10)] * (rnd.randint(2, 3) if kind == 'hex' else 2)
+    else:
+        h = F(1, rnd.choice([2, 4, 8]))
+        grids[ax] = [h] * (rnd.randint(3, 6) if kind == 'hex' else rnd.randint(3, 4))
+        for o in (o1, o2):
+            grids[o] = [h * rnd.choice([4, 6, 8])] * rnd.randint(1, 2)
+    n = [len(g) for g in grids]
+    coord = [[sum(g[:k], F(0)) for k in range(len(g) + 1)] for g in grids]
+    m = brick_mesh(kind, *n)
+    m['nodes'] = [(k, tuple(coord[a][int(p[a])] for a in range(3))) for k, p in m['nodes']]
+    pos = dict(m['nodes'])
+    for e, c in m['blocks'][kind]:
+        if kind == 'tet' and MG.signed('tet', [pos[v] for v in c]) < 0:
+            c[1], c[2] = c[2], c[1]
+        assert MG.signed(kind, [pos[v] for v in c]) > 0
+    m = reorder_nodes(rnd, m, rnd.choice(['asc', 'asc', 'shuf', 'desc', 'midshuf']))
+    m['shape'] = f'chain:{style}:cells={n}:h={h}:dist={t}xh'
+    nc = len(m['blocks'][kind])
+    params = {'elem_num': rnd.choice([1000, 1000, 1000, nc, max(2, nc // 2), 10]), 'cos_thresh': rnd.choice([0.99, 0.99, 0.9, 0.8]),
+              'dist_thresh': float(t * h), 'knn': rnd.choice([1, 2, 3])}
     return m, params
 
 
@@ -570,6 +645,12 @@ def compress_case(ctx, m, params, label='generated'):
     if ids != list(range(1, K + 1)) or used != set(range(K)):
         ctx.fail('nodes:not-exactly-the-used-nodes', f'{K} nodes listed with ids {ids[:8]}..., faces use {len(used)} distinct indices '
                  f'(unused: {sorted(set(range(K)) - used)[:8]}, out of range: {sorted(used - set(range(K)))[:8]})', case, None)
+    coords = np.asarray(out.nodes.data, dtype=np.float64)
+    if coords.shape != (K, 3) or not np.all(np.isfinite(coords)):
+        nf = [k for k in range(K) if coords.ndim != 2 or not np.all(np.isfinite(coords[k]))]
+        ctx.fail('nodes:listed-node-without-coordinates', f'{len(nf)} of the {K} listed nodes have no finite coordinates (first: node {nf[0] + 1 if nf else "?"} = '
+                 f'{coords[nf[0]].tolist() if nf and coords.ndim == 2 else None}; the cells using them are not polyhedra; dist_thresh={params["dist_thresh"]}): '
+                 f'nodes {[k + 1 for k in nf[:10]]}', case, None)
     for ci, flat in enumerate(out_cells):
         want = sorted({v for f in parse_flat(flat) for v in f})
         if sorted(int(v) - 1 for v in out.elements.data[ci]) != want:
@@ -589,10 +670,11 @@ def compress_case(ctx, m, params, label='generated'):
             ctx.disagree('reindex faces', case, None, None)
         ctx.count('reindex:' + ('with-merged-vertices' if merged_vertices else 'identity-conv'))
     # ---- volume
-    pos1 = [tuple(F(float(v)) for v in p) for p in out.nodes.data]
-    evaluable = used <= set(range(K))          # otherwise already reported as nodes:not-exactly-the-used-nodes
+    finite = coords.shape == (K, 3) and bool(np.all(np.isfinite(coords)))
+    pos1 = [tuple(F(float(v)) for v in p) for p in out.nodes.data] if finite else None
+    evaluable = finite and used <= set(range(K))          # otherwise already reported as nodes:not-exactly-the-used-nodes / without-coordinates
     vol1 = sum(fan_vol6(parse_flat(c), pos1) for c in out_cells) if evaluable else None
-    ctx.count('volume:' + ('not-evaluable(face nodes out of range)' if not evaluable else
+    ctx.count('volume:' + ('not-evaluable(face nodes out of range / node without coordinates)' if not evaluable else
                            'vertices-merged(not-compared)' if merged_vertices else 'no-vertex-merged'))
     if evaluable and not merged_vertices:
         if vol1 != vol0:
@@ -693,7 +775,98 @@ def mat_rows(mat):
     return [sorted(int(j) for j in mat.indices[mat.indptr[i]:mat.indptr[i + 1]]) for i in range(mat.shape[0])]
 
 
-def transfer_case(ctx, mc, poly, case, knn, f_width, step=None):
+
+# ---- the FIELD that is transferred: dtype, memory layout, rank (round 5: classes F / N).  The array handed to
+# update_data under a fresh name is stored as it is (same dtype, same memory), so the transfer functions see it directly.
+FIELD_DTYPES = (['float64'] * 5 + ['int64'] * 3 + ['int32', 'float32', 'float16', 'uint8', 'int8', 'bool'])
+FIELD_RARE = ['int16', 'uint16', 'uint32', 'uint64']
+FIELD_LAYOUTS = ['C', 'C', 'C', 'F', 'strided', 'readonly']
+NARROW = {'bool': 1, 'int8': 8, 'uint8': 8, 'int16': 16, 'uint16': 16}
+NARROW_SUFFIX = ':accumulated-in-the-dtype-of-the-field'
+RANK1_SUFFIX = ':one-dimensional-field'
+
+
+def gen_field(rnd):
+    dt = rnd.choice(FIELD_DTYPES + [rnd.choice(FIELD_RARE)])
+    return {'dtype': dt, 'layout': rnd.choice(FIELD_LAYOUTS), 'rank': 1 if rnd.randrange(16) == 0 else 2, 'seed': rnd.getrandbits(30)}
+
+
+def make_field(spec, kind, n_in, f_width):
+    """the values are drawn from the seed stored in `spec` (a replay gets the same field)
+    -> (exact values as rows of Fractions, the numpy array with the dtype / layout / rank of `spec`).  'mean': a constant
+    per column; 'sum': arbitrary values (integers: counts).  Every value is exactly representable in the dtype."""
+    dt = np.dtype(spec['dtype'])
+    w = 1 if spec['rank'] == 1 else f_width
+    import random
+    rnd = random.Random(f"{spec.get('seed', 0)}:{kind}:{n_in}:{w}")
+    if dt.kind == 'b':
+        def one():
+            return rnd.randint(0, 1)
+    elif dt.kind in 'iu':
+        if kind == 'mean':
+            hi = {'int8': 120, 'uint8': 250, 'int16': 30000, 'uint16': 60000}.get(dt.name, 9)
+        else:
+            hi = 20
+        lo = 0 if dt.kind == 'u' else -hi
+
+        def one():
+            return rnd.randint(lo, hi * (2 if dt.kind == 'u' and hi == 20 else 1))
+    elif kind == 'mean':
+        def one():
+            return F(rnd.randint(-9, 9), rnd.choice([1, 2, 4]))
+    else:
+        def one():
+            return F(rnd.randint(-20, 20))
+    if kind == 'mean':
+        cval = [F(one()) for _ in range(w)]
+        x = [list(cval) for _ in range(n_in)]
+    else:
+        x = [[F(one()) for _ in range(w)] for _ in range(n_in)]
+    base = np.array([[float(v) for v in r] for r in x], dtype=np.float64).reshape(n_in, w).astype(dt)
+    lay = spec['layout']
+    if lay == 'F':
+        arr = np.asfortranarray(base)
+    elif lay == 'strided':
+        wide = np.zeros((n_in, 2 * w + 1), dtype=dt)
+        wide[:, 1::2] = base
+        arr = wide[:, 1::2]
+    else:
+        arr = np.ascontiguousarray(base)
+    if spec['rank'] == 1:
+        arr = np.ascontiguousarray(arr[:, 0]) if lay != 'strided' else arr[:, 0]
+    if lay == 'readonly':
+        arr.setflags(write=False)
+    assert np.array_equal(np.asarray(arr, dtype=np.float64).reshape(n_in, w), np.array([[float(v) for v in r] for r in x]).reshape(n_in, w))
+    return x, arr, w
+
+
+def field_tol(spec):
+    dt = np.dtype(spec['dtype'])
+    return max(1e-9, 8 * float(np.finfo(dt).eps)) if dt.kind == 'f' else 1e-9
+
+
+def wrapped_mean(spec, cvals, counts):
+    """what a 'mean' of the constant row `cvals` becomes when the sum over the r related entries is accumulated IN the narrow
+    integer / bool dtype of the field (wraps modulo 2^bits; bool: logical or) and then divided by r"""
+    dt = np.dtype(spec['dtype'])
+    bits = NARROW[dt.name]
+    out = []
+    for r in counts:
+        row = []
+        for c in cvals:
+            c = int(c)
+            if dt.kind == 'b':
+                s = 1 if (c and r) else 0
+            elif dt.kind == 'u':
+                s = (c * r) % (1 << bits)
+            else:
+                s = (c * r + (1 << (bits - 1))) % (1 << bits) - (1 << (bits - 1))
+            row.append(s / r if r else float('nan'))
+        out.append(row)
+    return np.array(out, dtype=np.float64).reshape(len(counts), len(cvals))
+
+
+def transfer_case(ctx, mc, poly, case, knn, f_width, step=None, field=None):
     rnd = ctx.rng
     hist = {} if step is None else {'step': step}
     seen = {}
@@ -718,60 +891,113 @@ def transfer_case(ctx, mc, poly, case, knn, f_width, step=None):
             holder_out = b.nodal_data if level == 'nodal' else b.elemental_data
             ids_in = a.nodes.ids if level == 'nodal' else a.elements.ids
             fn = getattr(mc, f'{direction}_{level}_data')
+            back_fn = getattr(mc, f'{"decompress" if direction == "compress" else "compress"}_{level}_data')
+            back_rws = {'compress': cols, 'decompress': rows}[direction]
             for kind in ('mean', 'sum'):
-                if kind == 'mean':
-                    cval = [F(rnd.randint(-9, 9), rnd.choice([1, 2, 4])) for _ in range(f_width)]
-                    x = [[c for c in cval] for _ in range(n_in)]
-                else:
-                    x = [[F(rnd.randint(-20, 20)) for _ in range(f_width)] for _ in range(n_in)]
-                n1, n2 = f'in_{direction}_{kind}', f'out_{direction}_{kind}'
-                arr = np.array([[float(v) for v in r] for r in x])
-                for h, nm in ((holder_in, n1), (holder_out, n2)):
+                spec = dict(field) if field is not None else gen_field(rnd)
+                x, arr, w = make_field(spec, kind, n_in, f_width)
+                n1, n2, n3 = f'in_{direction}_{kind}', f'out_{direction}_{kind}', f'back_{direction}_{kind}'
+                for h, nm in ((holder_in, n1), (holder_out, n2), (holder_in, n3)):
                     if nm in h:
                         h.pop(nm)
+                snap = arr.copy()
                 quiet(holder_in.update_data, ids_in, {n1: arr}, allow_overwrite=True)
-                tc = {**case, 'knn': knn, 'level': level, 'direction': direction, 'transfer_kind': kind, 'width': f_width, **hist}
+                stored = holder_in[n1].data
+                exact = np.array([[float(v) for v in r] for r in x], dtype=np.float64).reshape(n_in, w)
+                fdesc = f'{spec["dtype"]}/{spec["layout"]}/rank{spec["rank"]}'
+                tc = {**case, 'knn': knn, 'level': level, 'direction': direction, 'transfer_kind': kind, 'width': f_width, 'field': spec, **hist}
                 sig = f'transfer:{kind}'
-                ctxt = (f'{direction}_{level}_data(kind={kind!r}, knn={knn})' + ('' if step is None else
+                ctxt = (f'{direction}_{level}_data(kind={kind!r}, knn={knn}) of a {fdesc} field' + ('' if step is None else
                         f', call group #{step + 1} of the knn sequence {case.get("knn_seq")} on ONE MeshCompressor object') + ': ')
+                ckey = ('transfer', MG.enc_mesh(MG.from_json(case['mesh'])), repr(sorted(case['params'].items())), level, direction, kind, knn, f_width,
+                        step, tuple(case.get('knn_seq', ())), fdesc)
+                ctx.count(f'field:dtype:{spec["dtype"]}:{kind}')
+                ctx.count(f'field:layout:{spec["layout"]}')
+                ctx.count(f'field:rank:{spec["rank"]}')
+                ctx.count('field:stored-' + ('as-handed-in(same dtype, shared memory)' if getattr(stored, 'dtype', None) == arr.dtype and np.shares_memory(stored, arr)
+                                             else 'same-dtype(copied)' if getattr(stored, 'dtype', None) == arr.dtype else 'CONVERTED'))
                 try:
-                    quiet(fn, name_1=n1, name_2=n2, kind=kind, knn=knn)
+                    with np.errstate(all='ignore'):
+                        quiet(fn, name_1=n1, name_2=n2, kind=kind, knn=knn)
                     y = np.asarray(holder_out[n2].data, dtype=np.float64)
                 except Exception as e:  # noqa
-                    ctx.fail(sig + ':raises', ('' if step is None else ctxt) + f'{direction}_{level}_data(kind={kind!r}, knn={knn}) on data of shape {arr.shape} raised '
-                             f'{type(e).__name__}: {str(e)[:120]}', tc, None)
-                    ctx.case(('transfer', case['params'].__repr__(), level, direction, kind, knn, f_width, step), nontrivial=True)
+                    ctx.fail(sig + ':raises', ctxt + f'on data of shape {arr.shape} raised {type(e).__name__}: {str(e)[:120]}', tc, None)
+                    ctx.case(ckey, nontrivial=True)
                     continue
-                y2 = y.reshape(y.shape[0], -1)
-                scale = max(1.0, float(np.abs(arr).sum()))
+                y2 = y.reshape(y.shape[0], -1) if y.ndim else y.reshape(1, 1)
+                scale = max(1.0, float(np.abs(exact).sum()))
+                tol = field_tol(spec) * scale
+                law_ok = False
+                narrow = False
                 # ---- oracle: the documented behaviour
-                if y2.shape != (n_out, f_width):
-                    ctx.fail(sig + ':shape', ('' if step is None else ctxt) + f'{direction}_{level}_data(kind={kind!r}) maps data of shape {(n_in, f_width)} to shape '
-                             f'{y.shape}, expected {(n_out, f_width)}; grand total {float(np.nansum(y)):.6g} vs {float(arr.sum()):.6g}', tc,
+                if y2.shape != (n_out, w) or (spec['rank'] == 1 and y.ndim > 2):
+                    ctx.fail(sig + ':shape' + (RANK1_SUFFIX if spec['rank'] == 1 else ''), ctxt + f'maps data of shape {arr.shape} to shape '
+                             f'{y.shape}, expected {(n_out,) if spec["rank"] == 1 else (n_out, w)}; grand total {float(np.nansum(y)):.6g} vs {float(exact.sum()):.6g}', tc,
                              {'shape': list(y.shape)})
                 elif kind == 'mean':
-                    if not np.allclose(y2, arr[0][None, :], rtol=0, atol=1e-9 * scale, equal_nan=False):
-                        ctx.fail(sig + ':constant-not-kept', ctxt + f'constant field {arr[0].tolist()} becomes {y2[:3].tolist()}...', tc, None)
+                    if not np.allclose(y2, exact[0][None, :], rtol=0, atol=tol, equal_nan=False):
+                        suffix = ''
+                        if spec['dtype'] in NARROW and all(rws) and np.allclose(y2, wrapped_mean(spec, x[0], [len(r) for r in rws]), rtol=0, atol=tol):
+                            suffix = NARROW_SUFFIX      # exactly the values of a sum accumulated in the narrow dtype of the field
+                            narrow = True
+                        bad = int(np.argmax(np.abs(np.nan_to_num(y2 - exact[0][None, :], nan=np.inf)).max(axis=1)))
+                        ctx.fail(sig + ':constant-not-kept' + suffix, ctxt + f'constant field {exact[0].tolist()} becomes {y2[bad].tolist()} at entry {bad} '
+                                 f'(which has {len(rws[bad])} related entries); first entries {y2[:3].tolist()}...', tc, None)
+                    else:
+                        law_ok = True
                 else:
-                    if not np.allclose(y2.sum(axis=0), arr.sum(axis=0), rtol=0, atol=1e-9 * scale):
-                        ctx.fail(sig + ':total-not-conserved', ctxt + f'totals {arr.sum(axis=0).tolist()} become {y2.sum(axis=0).tolist()}', tc, None)
+                    if not np.allclose(y2.sum(axis=0), exact.sum(axis=0), rtol=0, atol=tol):
+                        ctx.fail(sig + ':total-not-conserved', ctxt + f'totals {exact.sum(axis=0).tolist()} become {y2.sum(axis=0).tolist()}', tc, None)
+                    else:
+                        law_ok = True
+                # ---- the source field is an argument: it must be what it was (its total / constant is what was transferred)
+                try:
+                    now = np.asarray(holder_in[n1].data)
+                    if now.shape != snap.shape or not np.array_equal(now, snap) or not np.array_equal(arr, snap):
+                        ctx.fail(sig + ':source-field-modified', ctxt + f'the source field {n1!r} no longer holds the values it was given (total '
+                                 f'{float(np.nansum(np.asarray(now, dtype=np.float64))):.9g}, was {float(exact.sum()):.9g}): the two meshes do not carry the same '
+                                 f'{"total" if kind == "sum" else "constant"} after the transfer', tc, None)
+                except Exception:  # noqa   (already reported by the laws above if the holder is broken)
+                    pass
                 # ---- correspondence with the model applied to the real matrix
                 if ctx.driver is not None:
                     xs = ' '.join(C.enc_rat(v) for r in x for v in r)
-                    if y2.shape == (n_out, f_width):
-                        t = ask(ctx, f'c20.transfer {kind} {n_in} {C.enc_list(rws, C.enc_list)} {f_width} {xs}')
-                        mod = np.array([float(t.rat()) for _ in range(n_out * f_width)]).reshape(n_out, f_width) if n_out else y2
-                        if not np.allclose(y2, mod, rtol=0, atol=1e-9 * scale):
+                    if narrow:
+                        # Cfg pattern: the tree accumulates the 'mean' sum in the dtype of the field; the deviation was matched entry by
+                        # entry against that configuration (wrapped_mean; Lean: C20_mean_narrow_accumulation_counterexample)
+                        ctx.count('cfg:mean-accumulated-in-the-dtype-of-the-field(unrepaired)')
+                    elif y2.shape == (n_out, w):
+                        t = ask(ctx, f'c20.transfer {kind} {n_in} {C.enc_list(rws, C.enc_list)} {w} {xs}')
+                        mod = np.array([float(t.rat()) for _ in range(n_out * w)]).reshape(n_out, w) if n_out else y2
+                        if not np.allclose(y2, mod, rtol=0, atol=tol):
                             ctx.disagree(f'{direction}_{level}_data {kind}', tc, y2[:4].tolist(), mod[:4].tolist())
                         ctx.count(f'cfg:{kind}-as-documented')
-                    elif kind == 'sum' and f_width == 1 and y2.shape == (n_out, n_in):
+                    elif kind == 'sum' and w == 1 and spec['rank'] == 2 and y2.shape == (n_out, n_in):
                         t = ask(ctx, f'c20.transfer sumbroadcast {n_in} {C.enc_list(rws, C.enc_list)} 1 {xs}')
                         mod = np.array([float(t.rat()) for _ in range(n_out * n_in)]).reshape(n_out, n_in)
-                        ctx.count('cfg:sum-broadcast(F12 unrepaired)' if np.allclose(y2, mod, rtol=0, atol=1e-9 * scale) else 'cfg:sum-unknown')
-                ctx.case(('transfer', MG.enc_mesh(MG.from_json(case['mesh'])), repr(sorted(case['params'].items())), level, direction, kind, knn, f_width,
-                          step, tuple(case.get('knn_seq', ()))),
+                        ctx.count('cfg:sum-broadcast(F12 unrepaired)' if np.allclose(y2, mod, rtol=0, atol=tol) else 'cfg:sum-unknown')
+                # ---- "... and back": the field just produced (whatever array type the transfer stored) goes through the opposite
+                # function; the constant / the grand total of the ORIGINAL field must come back
+                if law_ok:
+                    try:
+                        with np.errstate(all='ignore'):
+                            quiet(back_fn, name_1=n2, name_2=n3, kind=kind, knn=knn)
+                        z = np.asarray(holder_in[n3].data, dtype=np.float64)
+                    except Exception as e:  # noqa
+                        ctx.fail(sig + ':round-trip-raises', ctxt + f'its result (shape {y.shape}) handed to the opposite transfer raised '
+                                 f'{type(e).__name__}: {str(e)[:120]}', tc, None)
+                    else:
+                        z2 = z.reshape(z.shape[0], -1) if z.ndim else z.reshape(1, 1)
+                        if z2.shape != (n_in, w):
+                            ctx.fail(sig + ':round-trip-shape' + (RANK1_SUFFIX if spec['rank'] == 1 else ''), ctxt + f'and back: shape {z.shape}, expected {arr.shape}', tc, None)
+                        elif kind == 'mean' and not np.allclose(z2, exact[0][None, :], rtol=0, atol=tol, equal_nan=False):
+                            ctx.fail(sig + ':round-trip-constant-not-kept', ctxt + f'and back: constant field {exact[0].tolist()} becomes {z2[:3].tolist()}...', tc, None)
+                        elif kind == 'sum' and not np.allclose(z2.sum(axis=0), exact.sum(axis=0), rtol=0, atol=tol):
+                            ctx.fail(sig + ':round-trip-total-not-conserved', ctxt + f'and back: totals {exact.sum(axis=0).tolist()} become {z2.sum(axis=0).tolist()}', tc, None)
+                        ctx.count(f'round-trip:{kind}:' + ('all-entries-related' if all(back_rws) else 'some-entry-unrelated'))
+                ctx.case(ckey,
                          sample={'kind': case.get('kind') if step is not None else 'transfer', **hist, 'level': level, 'direction': direction, 'transfer_kind': kind, 'knn': knn,
-                                 'matrix_shape': [M, N], 'width': f_width}, nontrivial=True)
+                                 'matrix_shape': [M, N], 'width': f_width, 'field': fdesc}, nontrivial=True)
                 ctx.count(f'transfer:{level}:{direction}:{kind}')
         seen[level] = rows
     return seen
@@ -800,14 +1026,14 @@ def gen_knn_seq(rnd, i):
     return [rnd.choice(ks) for _ in range(rnd.randint(3, 6))]
 
 
-def transfer_history(ctx, mc, poly, case, knn_seq, f_width):
+def transfer_history(ctx, mc, poly, case, knn_seq, f_width, field=None):
     """the same MeshCompressor object used for a sequence of transfers (the conversion matrices are lru_cached per
     (object, knn)): after every call the laws are checked and the result compared with the model on the real matrix"""
     clear_matrix_caches()
     hcase = {**case, 'kind': 'transfer_history', 'knn_seq': list(knn_seq), 'width': f_width}
     mats = {}
     for j, knn in enumerate(knn_seq):
-        seen = transfer_case(ctx, mc, poly, hcase, knn, f_width, step=j)
+        seen = transfer_case(ctx, mc, poly, hcase, knn, f_width, step=j, field=field)
         for level, rows in seen.items():
             if (level, knn) in mats and mats[(level, knn)] != rows:
                 # the matrix of a given knn is a function of the compression, not of the history
@@ -956,6 +1182,24 @@ def run(ctx):
             transfer_history(ctx, mc, poly, case, [params['knn'], k2, params['knn']], 1 + i % 2)
         else:
             transfer_case(ctx, mc, poly, case, params['knn'], 1 + i % 3)
+    # stream 'chain-collapse': dist_thresh clearly above the local edge length along one / two axes (chains of nodes collapse)
+    for i in range(ctx.n(16, 300)):
+        m, params = chain_case(ctx.rng, i)
+        r = compress_case(ctx, m, params, 'chain-collapse')
+        ctx.count('chain-collapse:' + m['shape'].split(':')[1] + ':' + m['kind'])
+        if r is None:
+            ctx.count('chain-collapse:no-compressed-mesh')
+            continue
+        mc, poly, case = r
+        conv = [int(v) for v in mc.node_conv]
+        groups = {}
+        for v in conv:
+            if v >= 0:
+                groups[v] = groups.get(v, 0) + 1
+        big = max(groups.values()) if groups else 0
+        ctx.count('chain-collapse:largest-set-of-input-nodes-merged-into-one:' + (str(big) if big < 4 else '4+'))
+        ctx.count('chain-collapse:cells-out:' + ('1' if len(mc.output_fem_data.elements.data) == 1 else '2+'))
+        transfer_case(ctx, mc, poly, case, params['knn'], 1 + i % 2)
     for i in range(n_merge):
         m, _ = gen_case(ctx.rng, i)
         n = sum(len(b) for b in m['blocks'].values())
@@ -981,10 +1225,10 @@ def replay(ctx, obj):
         r = compress_case(ctx, m, case['params'], 'replay')
         if r is not None and 'knn_seq' in case:
             mc, poly, c2 = r
-            transfer_history(ctx, mc, poly, c2, case['knn_seq'], case.get('width', 1))
+            transfer_history(ctx, mc, poly, c2, case['knn_seq'], case.get('width', 1), field=case.get('field'))
         elif r is not None and 'knn' in case and 'level' in case:
             mc, poly, c2 = r
-            transfer_case(ctx, mc, poly, c2, case['knn'], case.get('width', 1))
+            transfer_case(ctx, mc, poly, c2, case['knn'], case.get('width', 1), field=case.get('field'))
     new = ctx.failures[before:]
     want = None
     if 'transfer_kind' in case:
